@@ -11,25 +11,34 @@ func checkAffinity(s Scenario, o Outcome, add func(p, clause, m string, a ...int
 	if s.Affinity == "" || o.Panic != "" || o.BuildErr != "" {
 		return
 	}
-	p := s.Target.In[0]
 	if !o.OK {
 		add("C07", "failed", "call failed: %s", firstLine(fmt.Sprint(o.Err)))
 		return
 	}
+	p := s.Target.In[0]
+	_ = p
 	switch s.Affinity {
 	case "input":
-		want := ""
+		// every named parameter (of the target or of a downstream converter) that was
+		// produced by the type-only converter c0 must have been converted from the
+		// input of its own name
+		byName := map[string]string{}
 		for _, in := range s.Inputs {
-			if in.L.Name == p.Name {
-				want = in.V
-			}
+			byName[in.L.Name] = in.V
 		}
 		ran := false
 		for _, inv := range o.Log.Inv {
 			if inv.Func == "c0" {
 				ran = true
-				if len(inv.Args) != 1 || inv.Args[0].Prov != want {
-					add("C07", "wrong-input", "parameter %s must be converted from the same-named input %s, but the converter received %s", p, want, inv.Args[0].Prov)
+				continue
+			}
+			for _, a := range inv.Args {
+				m := termRe.FindStringSubmatch(a.Prov)
+				if a.Param.Name == "" || m == nil || m[1] != "c0" {
+					continue
+				}
+				if want := byName[a.Param.Name]; m[3] != want {
+					add("C07", "wrong-input", "%s parameter %s must be converted from the same-named input %s, but it was converted from %s", inv.Func, a.Param, want, m[3])
 				}
 			}
 		}
@@ -94,6 +103,34 @@ func init() {
 					for _, perm := range allPerms(nopts) {
 						emit(Scenario{Affinity: "input", Target: FuncSpec{ID: "tgt", In: []Label{param}, Out: []Label{{"", 2, ""}}, OutForm: FormPositional},
 							Inputs: mkInputs(ins), Convs: []FuncSpec{conv}, ArgOrder: append([]int{}, perm...)})
+					}
+				}
+			}
+			// part 1b: the converter is needed more than once in one call — two named
+			// parameters of the target, or one of the target and one of a downstream
+			// converter, each with its own same-named input among the competitors
+			if n == "a" {
+				for _, cf := range cforms {
+					out := Label{"", 0, ""}
+					if cf.on {
+						continue // a named output serves one name only
+					}
+					conv := FuncSpec{ID: "c0", In: []Label{{"", 1, ""}}, Out: []Label{out}, InForm: cf.in, OutForm: cf.out}
+					for _, nin := range []int{2, 3} {
+						var ins []Label
+						for i := 0; i < nin; i++ {
+							ins = append(ins, Label{names[i], 1, ""})
+						}
+						nopts := len(ins) + 1
+						for _, perm := range allPerms(nopts) {
+							emit(Scenario{Affinity: "input", Target: FuncSpec{ID: "tgt", In: []Label{{"a", 0, ""}, {"b", 0, ""}}, Out: []Label{{"", 2, ""}}, OutForm: FormPositional},
+								Inputs: mkInputs(ins), Convs: []FuncSpec{conv}, ArgOrder: append([]int{}, perm...)})
+						}
+						down := FuncSpec{ID: "c1", In: []Label{{"b", 0, ""}}, Out: []Label{{"", 3, ""}}, InForm: FormStruct, OutForm: FormPositional}
+						for _, perm := range allPerms(nopts + 1) {
+							emit(Scenario{Affinity: "input", Target: FuncSpec{ID: "tgt", In: []Label{{"a", 0, ""}, {"", 3, ""}}, Out: []Label{{"", 2, ""}}, OutForm: FormPositional},
+								Inputs: mkInputs(ins), Convs: []FuncSpec{conv, down}, ArgOrder: append([]int{}, perm...)})
+						}
 					}
 				}
 			}
